@@ -5,6 +5,7 @@
 import ClarabelProofs.Lemmas.SolverStaleSolve
 import ClarabelProofs.Lemmas.SolverStaleQdldl
 import ClarabelProofs.Lemmas.SolverStaleFrame
+import ClarabelProofs.Lemmas.SolverStaleWorkx
 
 namespace Clarabel.Solver
 open Clarabel Info Residuals
@@ -38,19 +39,26 @@ section
 variable [Add α] [Sub α] [Mul α] [Div α] [Neg α] [OfNat α 0] [OfNat α 1] [OfNat α 2]
   [OfNat α 100] [OfNat α 1000] [LT α] [DecidableLT α] [LE α] [DecidableLE α] [BEq α] [FloatLike α]
 
-/-- `Stale` from its structural part plus the three semantic side conditions -/
+/-- `Stale` from its structural part and the relation of the two linear solver objects (since /repo
+1706c1f there is no `0 · stale` side condition left) -/
 theorem Stale.of_sameShape {Bw : KktSolver α → KktSolver α → Prop} {S S' : SolverSt α} (h : SameShape S S')
-    (hw : WellSized S) (hB : Bw S.kktsystem.kktsolver S'.kktsystem.kktsolver)
-    (hPx : zmulR S.residuals.Px = zmulR S'.residuals.Px)
-    (hwx : zmulL S.kktsystem.workx = zmulL S'.kktsystem.workx) : Stale Bw S S' :=
+    (hw : WellSized S) (hq : WorkxSized S) (hB : Bw S.kktsystem.kktsolver S'.kktsystem.kktsolver) : Stale Bw S S' :=
   { data := h.data
     variables := h.variables
-    residuals := ⟨h.rx, h.rz, h.rx_inf, h.rz_inf, hPx⟩
-    kktsystem := ⟨hB, h.x1, h.z1, h.x2, h.z2, hwx, h.workz, SameFrom.of_le h.workConic hw.workConic⟩
+    residuals := ⟨h.rx, h.rz, h.rx_inf, h.rz_inf, h.Px⟩
+    kktsystem := ⟨hB, h.x1, h.z1, h.x2, h.z2, SameFrom.of_le h.workx hq, h.workz,
+      SameFrom.of_le h.workConic hw.workConic⟩
     cones := h.cones
     stepLhs := ⟨h.stepLhs.x, SameFrom.of_le h.stepLhs.s hw.stepLhs, h.stepLhs.z⟩
     stepRhs := ⟨h.stepRhs.x, SameFrom.of_le h.stepRhs.s hw.stepRhs, h.stepRhs.z⟩
     prevVars := h.prevVars }
+
+theorem solve_workxSized {S : Solver α} {st : Settings α} {r : SolveResult α} (h : S.solve st = .ok r)
+    (hc : ConesOk S.st.cones) (hq : WorkxSized S.st) : WorkxSized r.S.st := by
+  have hsh := solve_sameShape h hc
+  unfold WorkxSized at hq ⊢
+  rw [← hsh.workx, ← hsh.data]
+  exact hq
 
 /-- a solver state is `Stale`-related to the same state with another linear-solver object -/
 theorem Stale.swapSolver {Bw : KktSolver α → KktSolver α → Prop} (S : SolverSt α) (K' : KktSolver α)
@@ -59,7 +67,7 @@ theorem Stale.swapSolver {Bw : KktSolver α → KktSolver α → Prop} (S : Solv
   { data := rfl
     variables := VarsShape.of_eq rfl
     residuals := ResidShape.of_eq rfl
-    kktsystem := ⟨hB, rfl, rfl, rfl, rfl, rfl, rfl, SameFrom.rfl' _ _⟩
+    kktsystem := ⟨hB, rfl, rfl, rfl, rfl, SameFrom.rfl' _ _, rfl, SameFrom.rfl' _ _⟩
     cones := ConesShape.rfl' _
     stepLhs := StepShape.of_eq rfl
     stepRhs := StepShape.of_eq rfl
@@ -83,22 +91,19 @@ theorem SolShape.of_sizes {k : Option Nat} {sol sol' : Unscale.Solution α} (hx 
     rw [Array.getElem?_eq_none (by omega), Array.getElem?_eq_none (by omega)]
 
 /-- **the second of two `solve()` calls on one solver object** gives the observable result of the
-first, provided (ii) the two `0 · stale` buffers give the same zeros before and after the first
-call, (iii) `solve_initial_point` succeeds, (iv) `KKTSolver::update` forgets (`QW`) -/
+first, provided (iii) `solve_initial_point` succeeds and (iv) `KKTSolver::update` forgets (`QW`) -/
 theorem solve_twice_obs (hbeq : ((0 : α) == 0) = true) (st : Settings α) {S : Solver α} {r1 : SolveResult α}
-    (h1 : S.solve st = .ok r1) (hc : ConesOk S.st.cones) (hw : WellSized S.st)
+    (h1 : S.solve st = .ok r1) (hc : ConesOk S.st.cones) (hw : WellSized S.st) (hq : WorkxSized S.st)
     (hsz : ∀ n, (presolveMap S.st.data).map (fun m => m.keep.size) = some n →
       S.solution.s.size ≤ n ∧ S.solution.z.size ≤ n)
     (hK : QW S.st.kktsystem.kktsolver r1.S.st.kktsystem.kktsolver)
-    (hPx : zmulR S.st.residuals.Px = zmulR r1.S.st.residuals.Px)
-    (hwx : zmulL S.st.kktsystem.workx = zmulL r1.S.st.kktsystem.workx)
     (hinit : InitPointOk (resetInfo S.st) st) :
     ∃ r2, r1.S.solve st = .ok r2 ∧ SolveObs r1 r2 := by
   have hsh := solve_sameShape h1 hc
   obtain ⟨s1, s2, s3⟩ := solve_solution_shape h1
   have hsol : SolShape ((presolveMap S.st.data).map (fun m => m.keep.size)) S.solution r1.S.solution :=
     SolShape.of_sizes s1.symm s3.symm s2.symm hsz
-  have hrel := solve_rel hbeq qdldl_kktSim st (Stale.of_sameShape hsh hw hK hPx hwx) hsol (Or.inl hinit)
+  have hrel := solve_rel hbeq qdldl_kktSim st (Stale.of_sameShape hsh hw hq hK) hsol (Or.inl hinit)
   exact hrel.ok_left h1
 
 end
